@@ -169,3 +169,265 @@ Proof.
   - injection N as N1. intros sp Hi. apply keep_fixed. eapply ms_valid_fix_out; [symmetry; exact N1|exact Hi].
   - injection N as N1. intros sp Hi. apply keep_fixed. eapply ms_err_fix_out; [symmetry; exact N1|exact Hi].
 Qed.
+
+(** *** regex inputs carry spans of the tree *)
+
+Lemma pool_intern_in : forall r p rid p', pool_intern r p = (rid, p') -> forall x, In x p' -> In x p \/ x = r.
+Proof.
+  intros r p rid p' H x Hx. unfold pool_intern in H. destruct (pool_find r p 0).
+  - inversion H; subst. auto.
+  - inversion H; subst. apply in_app_or in Hx as [Hx|[<-|[]]]; auto.
+Qed.
+
+Lemma finish_inputs : forall id t s, r_inputs (finish_regex id t s) = b_inputs s.
+Proof. intros. reflexivity. Qed.
+
+Definition DoQ (e : expr) : Prop :=
+  forall s pl id t s' pl',
+    do_from_expr e s pl = Ok (id, t, s', pl') ->
+    (forall i, In i (b_inputs s') -> In i (b_inputs s) \/ In (rinput_span i) (all_spans e)) /\
+    (forall r, In r pl' -> In r pl \/ forall i, In i (r_inputs r) -> In (rinput_span i) (all_spans e)).
+
+Lemma do_children_spans : forall cs, Forall DoQ cs ->
+    forall s pl ids ts s' pl',
+      do_children do_from_expr cs s pl = Ok (ids, ts, s', pl') ->
+      (forall i, In i (b_inputs s') -> In i (b_inputs s) \/ In (rinput_span i) (flat_map all_spans cs)) /\
+      (forall r, In r pl' -> In r pl \/ forall i, In i (r_inputs r) -> In (rinput_span i) (flat_map all_spans cs)).
+Proof.
+  induction 1 as [|c cs Hc Hcs IH]; intros s pl ids ts s' pl' H; cbn [do_children] in H.
+  - inversion H; subst. split; auto.
+  - destruct (do_from_expr c s pl) as [[[[id t] s1] pl1]| | |] eqn:E; cbn [obind] in H; try discriminate.
+    destruct (do_children do_from_expr cs s1 pl1) as [[[[ids2 ts2] s2] pl2]| | |] eqn:E2; cbn [obind] in H; try discriminate.
+    inversion H; subst. destruct (Hc _ _ _ _ _ _ E) as [A1 B1]. destruct (IH _ _ _ _ _ _ E2) as [A2 B2].
+    cbn [flat_map]. split.
+    + intros i Hi. destruct (A2 i Hi) as [Hi1|Hi1]; [|right; apply in_or_app; auto].
+      destruct (A1 i Hi1); [auto|right; apply in_or_app; auto].
+    + intros r Hr. destruct (B2 r Hr) as [Hr1|Hr1]; [|right; intros; apply in_or_app; auto].
+      destruct (B1 r Hr1) as [|Hx]; [auto|right; intros; apply in_or_app; auto].
+Qed.
+
+Lemma do_from_expr_spans : forall e, DoQ e.
+Proof.
+  induction e using expr_ind'; intros s pl id t0 s' pl' Hd; cbn [do_from_expr] in Hd.
+  - cbn in Hd. inversion Hd; subst. cbn [b_inputs all_spans]. split; auto.
+    intros i Hi. apply in_app_or in Hi as [Hi|[<-|[]]]; auto. right. left. reflexivity.
+  - cbn in Hd. inversion Hd; subst. cbn [b_inputs all_spans]. split; auto.
+    intros i Hi. apply in_app_or in Hi as [Hi|[<-|[]]]; auto. right. left. reflexivity.
+  - cbn in Hd. inversion Hd; subst. cbn [b_inputs all_spans]. split; auto.
+    intros i Hi. apply in_app_or in Hi as [Hi|[<-|[]]]; auto. right. left. reflexivity.
+  - destruct (do_children do_from_expr cs s pl) as [[[[ids ts] s1] pl1]| | |] eqn:E; cbn [obind] in Hd; try discriminate.
+    cbn in Hd. inversion Hd; subst. cbn [b_inputs all_spans].
+    destruct (do_children_spans cs H _ _ _ _ _ _ E) as [A B]. split.
+    + intros i Hi. destruct (A i Hi); [auto|right; right; auto].
+    + intros r Hr. destruct (B r Hr) as [|Hx]; [auto|right; intros; right; auto].
+  - destruct (do_children do_from_expr cs s pl) as [[[[ids ts] s1] pl1]| | |] eqn:E; cbn [obind] in Hd; try discriminate.
+    cbn in Hd. inversion Hd; subst. cbn [b_inputs all_spans].
+    destruct (do_children_spans cs H _ _ _ _ _ _ E) as [A B]. split.
+    + intros i Hi. destruct (A i Hi); [auto|right; right; auto].
+    + intros r Hr. destruct (B r Hr) as [|Hx]; [auto|right; intros; right; auto].
+  - destruct (do_from_expr e s pl) as [[[[cid ct] s1] pl1]| | |] eqn:E; cbn [obind] in Hd; try discriminate.
+    cbn in Hd. inversion Hd; subst. cbn [b_inputs all_spans]. destruct (IHe _ _ _ _ _ _ E) as [A B]. split.
+    + intros i Hi. destruct (A i Hi); [auto|right; right; auto].
+    + intros r Hr. destruct (B r Hr) as [|Hx]; [auto|right; intros; right; auto].
+  - destruct (do_from_expr e s pl) as [[[[cid ct] s1] pl1]| | |] eqn:E; cbn [obind] in Hd; try discriminate.
+    cbn in Hd. inversion Hd; subst. cbn [b_inputs all_spans]. destruct (IHe _ _ _ _ _ _ E) as [A B]. split.
+    + intros i Hi. destruct (A i Hi); [auto|right; right; auto].
+    + intros r Hr. destruct (B r Hr) as [|Hx]; [auto|right; intros; right; auto].
+  - discriminate.
+  - destruct (do_children do_from_expr cs s pl) as [[[[ids ts] s1] pl1]| | |] eqn:E; cbn [obind] in Hd; try discriminate.
+    cbn in Hd. inversion Hd; subst. cbn [b_inputs all_spans].
+    destruct (do_children_spans cs H _ _ _ _ _ _ E) as [A B]. split.
+    + intros i Hi. destruct (A i Hi); [auto|right; right; auto].
+    + intros r Hr. destruct (B r Hr) as [|Hx]; [auto|right; intros; right; auto].
+  - destruct (do_from_expr e empty_bst pl) as [[[[cid ct] cs] pl1]| | |] eqn:E; cbn [obind] in Hd; try discriminate.
+    destruct (pool_intern (finish_regex cid ct cs) pl1) as [rid pl2] eqn:Pi.
+    cbn in Hd. inversion Hd; subst. cbn [b_inputs all_spans]. destruct (IHe _ _ _ _ _ _ E) as [A B]. split.
+    + intros i Hi. apply in_app_or in Hi as [Hi|[<-|[]]]; auto. right. left. reflexivity.
+    + intros r Hr. destruct (pool_intern_in _ _ _ _ Pi r Hr) as [Hr1 | ->].
+      * destruct (B r Hr1) as [|Hx]; [auto|right; intros; right; auto].
+      * right. intros i Hi. rewrite finish_inputs in Hi. destruct (A i Hi) as [[]|]. right. auto.
+Qed.
+
+Lemma do_children_no_err : forall cs,
+    Forall (fun e => forall s pl x, do_from_expr e s pl = Err x -> False) cs ->
+    forall s pl x, do_children do_from_expr cs s pl = Err x -> False.
+Proof.
+  induction 1 as [|c cs Hc Hcs IH]; intros s pl x H; cbn [do_children] in H; [discriminate|].
+  destruct (do_from_expr c s pl) as [[[[id t] s1] pl1]|y| |] eqn:E; cbn [obind] in H; try discriminate.
+  - destruct (do_children do_from_expr cs s1 pl1) as [[[[ids2 ts2] s2] pl2]|y| |] eqn:E2; cbn [obind] in H; try discriminate.
+    eapply IH; eauto.
+  - eapply Hc; eauto.
+Qed.
+
+Lemma do_from_expr_no_err : forall e s pl x, do_from_expr e s pl = Err x -> False.
+Proof.
+  induction e using expr_ind'; intros s pl x Hd; cbn [do_from_expr] in Hd; try (cbn in Hd; discriminate).
+  - destruct (do_children do_from_expr cs s pl) as [[[[ids ts] s1] pl1]|y| |] eqn:E; cbn [obind] in Hd; try discriminate.
+    eapply do_children_no_err; eauto.
+  - destruct (do_children do_from_expr cs s pl) as [[[[ids ts] s1] pl1]|y| |] eqn:E; cbn [obind] in Hd; try discriminate.
+    eapply do_children_no_err; eauto.
+  - destruct (do_from_expr e s pl) as [[[[cid ct] s1] pl1]|y| |] eqn:E; cbn [obind] in Hd; try discriminate. eauto.
+  - destruct (do_from_expr e s pl) as [[[[cid ct] s1] pl1]|y| |] eqn:E; cbn [obind] in Hd; try discriminate. eauto.
+  - destruct (do_children do_from_expr cs s pl) as [[[[ids ts] s1] pl1]|y| |] eqn:E; cbn [obind] in Hd; try discriminate.
+    eapply do_children_no_err; eauto.
+  - destruct (do_from_expr e empty_bst pl) as [[[[cid ct] cs] pl1]|y| |] eqn:E; cbn [obind] in Hd; try discriminate.
+    + destruct (pool_intern (finish_regex cid ct cs) pl1). cbn in Hd. discriminate.
+    + eauto.
+Qed.
+
+Lemma from_expr_spans : forall e r pl, from_expr e [] = Ok (r, pl) ->
+    forall sub, In sub pl -> forall i, In i (r_inputs sub) -> In (rinput_span i) (all_spans e).
+Proof.
+  intros e r pl H sub Hs i Hi. unfold from_expr in H.
+  destruct (do_from_expr e empty_bst []) as [[[[id t] s] pl1]| | |] eqn:E; cbn [obind] in H; try discriminate.
+  inversion H; subst. destruct (do_from_expr_spans e _ _ _ _ _ _ E) as [_ B].
+  destruct (B sub Hs) as [[]|Hx]. auto.
+Qed.
+
+(** *** where [UnboundedMatchable] gets its spans *)
+
+Definition ispans (r : regex) : list span := map rinput_span (r_inputs r).
+
+Lemma input_at_in : forall r p i, input_at r p = Ok i -> In i (r_inputs r).
+Proof.
+  intros r p i H. unfold input_at in H. destruct (nthN (r_inputs r) p) eqn:E; inversion H; subst.
+  unfold nthN in E. eapply nth_error_In; eauto.
+Qed.
+
+Lemma omap_in : forall {E A B} (f : A -> outcome E B) (P : B -> Prop) l l',
+    (forall a b, f a = Ok b -> P b) -> omap f l = Ok l' -> forall b, In b l' -> P b.
+Proof.
+  intros E A B f P. induction l; intros l' Hf H b Hb; cbn [omap] in H.
+  - inversion H; subst. destruct Hb.
+  - destruct (f a) eqn:Fa; cbn [obind] in H; try discriminate.
+    destruct (omap f l) eqn:Fl; cbn [obind] in H; try discriminate. inversion H; subst.
+    destruct Hb as [<-|Hb]; eauto.
+Qed.
+
+Lemma inputs_of_in : forall r fp l, inputs_of r fp = Ok l -> forall i, In i l -> In i (r_inputs r).
+Proof. intros r fp l H. unfold inputs_of in H. eapply omap_in; eauto. apply input_at_in. Qed.
+
+Lemma inputs_of_no_err : forall r fp e, inputs_of r fp = Err e -> False.
+Proof.
+  intros r fp e. unfold inputs_of. generalize (filter (fun p => negb (N.eqb p (r_end r))) fp).
+  induction l; cbn [omap]; intros H; [discriminate|].
+  unfold input_at at 1 in H. destruct (nthN (r_inputs r) a); cbn [obind] in H; [|discriminate].
+  destruct (omap (input_at r) l) eqn:O; cbn [obind] in H; try discriminate. apply IHl. congruence.
+Qed.
+
+Lemma scan_inputs_spec : forall l pp prev,
+    match scan_inputs l pp prev with
+    | Ok o => o = prev \/ exists i, In i l /\ o = Some i
+    | Err (UnboundedMatchable a b) => (exists p, pp = Some p /\ a = rinput_span p) /\ exists i, In i l /\ b = rinput_span i
+    | _ => True
+    end.
+Proof.
+  induction l as [|inp l IH]; intros pp prev; cbn [scan_inputs]; auto.
+  destruct pp as [p|].
+  - split; eauto. exists inp. split; auto. left; reflexivity.
+  - assert (St : (exists st, is_star_subword inp = Ok st) \/ (exists m, is_star_subword inp = Panic m))
+      by (destruct inp; cbn; eauto).
+    destruct St as [[st ->]|[m ->]]; cbn [obind]; auto.
+    specialize (IH None (if st then Some inp else prev)).
+    destruct (scan_inputs l None (if st then Some inp else prev)) as [o|[a b]| |]; auto.
+    + destruct IH as [->|(i & Hi & ->)]; [destruct st; [right; exists inp; split; auto; left; reflexivity|auto]|].
+      right. exists i. split; auto. right; auto.
+    + destruct IH as [A (i & Hi & B)]. split; auto. exists i. split; auto. right; auto.
+Qed.
+
+Section TailSpans.
+  Variable r : regex.
+  Variable fw : list (N * list N).
+
+  Definition pp_ok (pp : option rinput) : Prop := forall p, pp = Some p -> In p (r_inputs r).
+
+  Lemma tail_only_spans : forall fuel fp pp visited,
+      pp_ok pp ->
+      match tail_only r fw fuel fp pp visited with
+      | Err (UnboundedMatchable a b) => In a (ispans r) /\ In b (ispans r)
+      | _ => True
+      end.
+  Proof.
+    induction fuel as [|f IH]; intros fp pp visited Hpp; cbn [tail_only]; auto.
+    destruct (inputs_of r fp) as [inputs|e| |] eqn:Ei; cbn [obind]; auto.
+    2:{ destruct (inputs_of_no_err _ _ _ Ei). }
+    pose proof (inputs_of_in _ _ _ Ei) as Hin.
+    pose proof (scan_inputs_spec inputs pp None) as Sc.
+    destruct (scan_inputs inputs pp None) as [prev|[a b]| |]; cbn [obind]; auto.
+    2:{ destruct Sc as [(p & -> & ->) (i & Hi & ->)]. split; apply in_map; auto; apply Hpp; reflexivity. }
+    assert (Hnext : pp_ok (opt_or pp prev)).
+    { intros p Hp. destruct pp as [q|]; cbn [opt_or] in Hp; [apply Hpp; auto|].
+      destruct Sc as [->|(i & Hi & ->)]; [discriminate|]. inversion Hp; subst. auto. }
+    clear Sc Ei.
+    generalize visited. induction fp as [|p ps IHps]; intros vis; auto.
+    destruct (memN p vis); [apply IHps|].
+    destruct (assocN p fw) as [follow|]; [|apply IHps].
+    specialize (IH follow (opt_or pp prev) (p :: vis) Hnext).
+    destruct (tail_only r fw f follow (opt_or pp prev) (p :: vis)) as [v1|[a b]| |]; cbn [obind]; auto.
+    apply IHps.
+  Qed.
+End TailSpans.
+
+Lemma check_tail_only_spans : forall r,
+    match check_tail_only r with
+    | Err (UnboundedMatchable a b) => In a (ispans r) /\ In b (ispans r)
+    | _ => True
+    end.
+Proof.
+  intros r. unfold check_tail_only.
+  pose proof (tail_only_spans r (regex_follow r) (regex_fuel r) (regex_first r) None [r_end r]
+                ltac:(intros p Hp; discriminate)) as X.
+  destruct (tail_only r (regex_follow r) (regex_fuel r) (regex_first r) None [r_end r]) as [v|[a b]| |]; cbn [obind]; auto.
+Qed.
+
+Definition from_pool (pl : pool) (a b : span) : Prop :=
+  exists sub, In sub pl /\ In a (ispans sub) /\ In b (ispans sub).
+
+Lemma check_each_sub_spans : forall pl ids checked,
+    match check_each_sub pl ids checked with
+    | Err (UnboundedMatchable a b) => from_pool pl a b
+    | _ => True
+    end.
+Proof.
+  intros pl. induction ids as [|rid rest IH]; intros checked; cbn [check_each_sub]; auto.
+  destruct (nthN pl rid) as [sub|] eqn:E; auto.
+  pose proof (check_tail_only_spans sub) as X.
+  destruct (check_tail_only sub) as [u|[a b]| |]; cbn [obind]; auto.
+  - apply IH.
+  - exists sub. split; [unfold nthN in E; eapply nth_error_In; eauto|exact X].
+Qed.
+
+Lemma check_subwords_spans : forall r fw pl fuel fp visited checked,
+    match check_subwords r fw pl fuel fp visited checked with
+    | Err (UnboundedMatchable a b) => from_pool pl a b
+    | _ => True
+    end.
+Proof.
+  intros r fw pl. induction fuel as [|f IH]; intros fp visited checked; cbn [check_subwords]; auto.
+  destruct (inputs_of r fp) as [inputs|e| |] eqn:Ei; cbn [obind]; auto.
+  2:{ destruct (inputs_of_no_err _ _ _ Ei). }
+  pose proof (check_each_sub_spans pl (filter (fun rid => negb (memN rid checked)) (sub_ids_of inputs)) checked) as X.
+  destruct (check_each_sub pl _ checked) as [checked1|[a b]| |]; cbn [obind]; auto.
+  clear X Ei. generalize visited checked1. induction fp as [|p ps IHps]; intros vis chk; auto.
+  destruct (memN p vis); [apply IHps|].
+  destruct (assocN p fw) as [follow|]; [|apply IHps].
+  specialize (IH follow (p :: vis) chk).
+  destruct (check_subwords r fw pl f follow (p :: vis) chk) as [vc|[a b]| |]; cbn [obind]; auto. apply IHps.
+Qed.
+
+Theorem unbounded_spans : forall e a b, from_valid_expr e = Err (UnboundedMatchable a b) ->
+    In a (all_spans e) /\ In b (all_spans e).
+Proof.
+  intros e a b H. unfold from_valid_expr in H.
+  destruct (from_expr e []) as [[r pl]|x| |] eqn:E; cbn [obind] in H; try discriminate.
+  2:{ exfalso. unfold from_expr in E.
+      destruct (do_from_expr e empty_bst []) as [[[[id t] s] pl1]|y| |] eqn:E0; cbn [obind] in E; try discriminate.
+      eapply do_from_expr_no_err; eauto. }
+  cbn [fst snd] in H. unfold check_ambiguities in H.
+  pose proof (check_subwords_spans r (regex_follow r) pl (regex_fuel r) (regex_first r) [r_end r] []) as X.
+  destruct (check_subwords r (regex_follow r) pl (regex_fuel r) (regex_first r) [r_end r] []) as [vc|[a' b']| |];
+    cbn [obind] in H; try discriminate.
+  inversion H; subst. destruct X as (sub & Hs & Ha & Hb).
+  unfold ispans in *. apply in_map_iff in Ha as (ia & <- & Hia). apply in_map_iff in Hb as (ib & <- & Hib).
+  split; eapply from_expr_spans; eauto.
+Qed.
